@@ -206,7 +206,7 @@ def deductive(rep: Report, tier):
             clean = not any(_is_arg_effect(e, stores, objs) for e in ctx.effects)
             return [("raises", True), ("before_write", clean)]
         run_case(rep, P, qual, cid.split(":", 1)[1], setup2, post, lib=lib, contracts=ALGEBRA, clauses=["raises", "before_write"],
-                 site_obligations=False, replay=None)
+                 site_obligations=False, replay=replay_cell(cid))
 
 
 # ---------------------------------------------------------------------------------------------------
@@ -348,7 +348,54 @@ def concrete_table(rt):
     cell("restore_fft:boundary", lambda B, p: Ll.qslst_restore_fft(B, p, 1e-3, boundary="reflect"), [np.zeros((4, 5, 4)), psf.copy()])
     cell("restore_matrix:operator_size", Ll.qslst_restore_matrix, [np.zeros((4, 5, 4)), np.eye(19), 1e-3])
     cell("blur:indomain(1, 1)", Ll.apply_blur_fft, [np.zeros((1, 1, 4)), np.ones((1, 1))], False)
-    return cells
+    # orientation variants: every 'nonsquare' class is represented by a wide AND a tall matrix
+    extra = []
+    for cid, fn, args, reject, obj in cells:
+        if reject and ":nonsquare" in cid and "qgmres" not in cid and args and getattr(args[0], "shape", None) == (2, 3):
+            for tag, shp in (("tall", (3, 2)), ("2x1", (2, 1)), ("1x2", (1, 2)), ("4x1", (4, 1))):
+                extra.append((f"{cid}/{tag}", fn, [rq(*shp, seed=7)] + list(args[1:]), True, obj))
+    return cells + extra
+
+
+def _run_cell(rt, fn, args, reject, obj):
+    before = [rt.ahash(a) for a in args]
+    state = rt.state_snapshot(obj) if obj is not None else None
+    raised = None
+    import contextlib
+    import io
+    try:
+        with contextlib.redirect_stdout(io.StringIO()):
+            out = fn(*args)
+    except BaseException as e:
+        raised = e
+    after = [rt.ahash(a) for a in args]
+    if reject:
+        if raised is None:
+            return {"what": "out-of-domain argument was answered instead of rejected", "returned": type(out).__name__}
+        if before != after:
+            return {"what": "argument modified before the rejection"}
+        if obj is not None and state != rt.state_snapshot(obj):
+            return {"what": "solver state modified before the rejection", "before": repr(state), "after": repr(rt.state_snapshot(obj))}
+    elif raised is not None:
+        return {"what": f"in-domain argument rejected: {type(raised).__name__}: {raised}"}
+    return None
+
+
+def replay_cell(cid):
+    """Replay of a deductive cell: the concrete cells of the same entry point and argument class
+    (all orientation variants) on the real code."""
+    def rp(seed):
+        from .. import runtime as rt
+        key = cid.split("[")[0]
+        for c2, fn, args, reject, obj in concrete_table(rt):
+            base = c2.split("[")[0]
+            if base == key or base.startswith(key + "/"):
+                res = _run_cell(rt, fn, args, reject, obj)
+                if res:
+                    res.update({"failed": True, "cell": c2, "arg_shapes": [getattr(a, "shape", None) for a in args]})
+                    return res
+        return {"failed": False, "cell": cid}
+    return rp
 
 
 def bounded(rep: Report, tier, seed):
@@ -358,9 +405,12 @@ def bounded(rep: Report, tier, seed):
                                 "reject cells must raise and leave arguments / solver state byte-identical; in-domain boundary cells must not raise; exhaustive over the table"))
 
     def run_cell(fn, args, reject, obj):
+        return lambda: _run_cell(rt, fn, args, reject, obj)
+
+    def run_cell_old(fn, args, reject, obj):
         def f():
             before = [rt.ahash(a) for a in args]
-            state = copy.deepcopy(obj.__dict__) if obj is not None else None
+            state = rt.state_snapshot(obj) if obj is not None else None
             raised = None
             try:
                 out = fn(*args)
@@ -372,8 +422,8 @@ def bounded(rep: Report, tier, seed):
                     return {"what": "out-of-domain argument was answered instead of rejected", "returned": type(out).__name__}
                 if before != after:
                     return {"what": "argument modified before the rejection"}
-                if obj is not None and repr(state) != repr(obj.__dict__):
-                    return {"what": "solver state modified before the rejection", "before": repr(state), "after": repr(obj.__dict__)}
+                if obj is not None and state != rt.state_snapshot(obj):
+                    return {"what": "solver state modified before the rejection", "before": repr(state), "after": repr(rt.state_snapshot(obj))}
             elif raised is not None:
                 return {"what": f"in-domain argument rejected: {type(raised).__name__}: {raised}"}
             return None
